@@ -137,12 +137,12 @@ MUTANTS.update({
   'C02': [
     ('pop-no-lock', [(C, "      with self.lock:\n        metric = self.strategy.choose_item()\n        if metric is None:", "      if True:\n        metric = self.strategy.choose_item()\n        if metric is None:")]),
     ('store-no-lock', [(C, "    timestamp, value = datapoint\n    with self.lock:\n", "    timestamp, value = datapoint\n    if True:\n")]),
-    ('size-after-lock', [(C, "        datapoint_index = self._pop(metric)\n      self._check_available_space()\n      return (metric, sorted(datapoint_index.items(), key=by_timestamp))",
+    ('size-after-lock', [(C, "        datapoint_index = self._pop(metric)\n        self._check_available_space()\n      return (metric, sorted(datapoint_index.items(), key=by_timestamp))",
                           "        datapoint_index = defaultdict.pop(self, metric)\n      self.size -= len(datapoint_index)\n      self._check_available_space()\n      return (metric, sorted(datapoint_index.items(), key=by_timestamp))")]),
     ('dup-increments-size', [(C, "        # Updating a duplicate does not increase the cache size\n        self[metric][timestamp] = value", "        # Updating a duplicate does not increase the cache size\n        self[metric][timestamp] = value\n        self.size += 1")]),
     ('drop-sorted', [(C, "      return (metric, sorted(datapoint_index.items(), key=by_timestamp))\n    # Avoid", "      return (metric, list(datapoint_index.items()))\n    # Avoid")]),
     ('first-write-wins', [(C, "        # Updating a duplicate does not increase the cache size\n        self[metric][timestamp] = value", "        # Updating a duplicate does not increase the cache size\n        pass")]),
-    ('pop-two-steps', [(C, "        datapoint_index = self._pop(metric)\n      self._check_available_space()\n      return (metric, sorted(datapoint_index.items(), key=by_timestamp))",
+    ('pop-two-steps', [(C, "        datapoint_index = self._pop(metric)\n        self._check_available_space()\n      return (metric, sorted(datapoint_index.items(), key=by_timestamp))",
                         "        datapoint_index = dict(self[metric])\n      with self.lock:\n        self.size -= len(self[metric])\n        del self[metric]\n      self._check_available_space()\n      return (metric, sorted(datapoint_index.items(), key=by_timestamp))")]),
     ('query-pops', [('lib/carbon/protocols.py', "      datapoints = list(cache.get(metric, {}).items())\n      result = dict(datapoints=datapoints)", "      datapoints = list(cache.get(metric, {}).items())[:2]\n      result = dict(datapoints=datapoints)")]),
   ],
@@ -156,7 +156,7 @@ MUTANTS.update({
     ('size-not-incremented-for-new-metric', [(C, "          if not self[metric]:\n            self.new_metrics.append(metric)\n          self.size += 1", "          if not self[metric]:\n            self.new_metrics.append(metric)\n          else:\n            self.size += 1")]),
   ],
   'C17': [
-    ('choose-pop-window', [(C, "        datapoint_index = self._pop(metric)\n      self._check_available_space()\n      return (metric, sorted(datapoint_index.items(), key=by_timestamp))",
+    ('choose-pop-window', [(C, "        datapoint_index = self._pop(metric)\n        self._check_available_space()\n      return (metric, sorted(datapoint_index.items(), key=by_timestamp))",
                             "        pass\n      return (metric, self.pop(metric))")]),
     ('sorted-resorts-every-call', [(C, "class SortedStrategy(DrainStrategy):", "class SortedStrategy(DrainStrategy):\n  def choose_item(self):\n    self.__init__(self.cache)\n    return next(self.queue)\n  choose_item2 = choose_item\n"),
                                    (C, "    self.queue = _generate_queue()\n\n  def choose_item(self):\n    return next(self.queue)\n\n\nclass TimeSortedStrategy", "    self.queue = _generate_queue()\n\n  def choose_item_unused(self):\n    return next(self.queue)\n\n\nclass TimeSortedStrategy")]),
@@ -195,9 +195,8 @@ MUTANTS.update({
   'C07': [
     ('popleft-to-pop', [(CL, "          yield self.queue.popleft()", "          yield self.queue.pop()")]),
     ('normal-appendleft', [(CL, "  def enqueue(self, metric, datapoint):\n    self.queue.append((metric, datapoint))", "  def enqueue(self, metric, datapoint):\n    self.queue.appendleft((metric, datapoint))")]),
-    ('no-clear-after-reinject', [(CL, "          state.events.metricGenerated(metric, datapoint)\n      self.queue.clear()\n\n  def disconnect", "          state.events.metricGenerated(metric, datapoint)\n\n  def disconnect")]),
-    ('clear-before-reinject', [(CL, "      metrics = list(self.queue)\n      log.clients(\"Re-injecting %d metrics from %s\" % (len(metrics), self))\n      for metric, datapoint in metrics:\n          state.events.metricGenerated(metric, datapoint)\n      self.queue.clear()\n\n  def disconnect",
-                                "      self.queue.clear()\n      metrics = list(self.queue)\n      log.clients(\"Re-injecting %d metrics from %s\" % (len(metrics), self))\n      for metric, datapoint in metrics:\n          state.events.metricGenerated(metric, datapoint)\n\n  def disconnect")]),
+    ('no-clear-after-reinject', [(CL, "          state.events.metricGenerated(metric, datapoint)\n      self.queue.clear()\n      # The queue is empty now", "          state.events.metricGenerated(metric, datapoint)\n      # The queue is empty now")]),
+    ('clear-before-reinject', [(CL, "      # Re-inject queued metrics.\n      metrics = list(self.queue)\n", "      # Re-inject queued metrics.\n      self.queue.clear()\n      metrics = list(self.queue)\n")]),
     ('drop-counted-but-enqueued', [(CL, "      else:\n        instrumentation.increment(self.fullQueueDrops)\n    else:", "      else:\n        instrumentation.increment(self.fullQueueDrops)\n        self.enqueue(metric, datapoint)\n    else:")]),
     ('drop-not-counted', [(CL, "      else:\n        instrumentation.increment(self.fullQueueDrops)\n    else:", "      else:\n        pass\n    else:")]),
     ('disconnect-immediately', [(CL, "    self.queueEmpty.addCallbacks(lambda result: self.stopConnecting(), log.err)\n", "    self.stopConnecting()\n")]),
